@@ -17,25 +17,63 @@ AM, RF, RT = Rat.sym('amount'), Rat.sym('rate_from'), Rat.sym('rate_to')
 WANT = AM / RF * RT
 
 
+OPAQUE = r'tools::do_divition$|^tokinizer::tools::(get_|read_currency)'
+
+
+def conv_values(ctx, b, e):
+    """inline crate-local helpers, then expand every phi nested in the arithmetic into alternatives"""
+    from ..facts import inline_calls
+    e = inline_calls(ctx.facts, e, depth=3, skip=OPAQUE)
+    return expand_inner(b, e, ())
+
+
+def make_leaf(src_re, tgt_re):
+    def leaf(e):
+        t = render(e)
+        if re.fullmatch(r'(?:%s)\.0' % src_re, t):
+            return 'amount'
+        m = re.fullmatch(r'BTreeMap::get\(config\.currency_rate, (.*)\) as Some\.0', t)
+        if m:
+            k = m.group(1)
+            if re.fullmatch(r'(?:%s)\.1' % src_re, k):
+                return 'rate_from'
+            if re.fullmatch(tgt_re, k):
+                return 'rate_to'
+        return None
+    return leaf
+
+
+def check_conversion(ctx, b, value_expr, leaf, key, what, allow_zero_when_rate_missing, site):
+    n_ok = 0
+    for a, conds in conv_values(ctx, b, value_expr):
+        a = strip(a)
+        cs = [cond_str(d, v) for d, v in conds]
+        missing = any('currency_rate' in c and (c.endswith('!=[1]') or c.endswith('=[0]')) for c in cs)
+        zero = (a[0] == 'const' and a[2] == 0.0) or (a[0] != 'const' and any(x[0] == 'const' and x[2] == 0.0 for x in walk(a)))
+        if zero and missing and allow_zero_when_rate_missing:
+            continue      # MoneyItem arithmetic with a currency that has no rate: 0 (outside the quantifier "currencies that have a rate")
+        try:
+            got = to_rat(a, leaf, strip)
+        except NotArithmetic as e:
+            ctx.finding('M1', '%s/not-arithmetic' % key, '%s: value %s is not amount / rate(from) * rate(to) (%s)' % (what, render(a)[:160], e), site=site)
+            continue
+        if got.equals(WANT):
+            n_ok += 1
+            ctx.ok('M1', '%s == amount / rate(from) * rate(to)' % what, 'ratfun', site=site)
+        else:
+            ctx.finding('M1', '%s/formula' % key, '%s computes %s%s; the statement says amount * rate(B)/rate(A) with the rates of the table' % (
+                what, render(a)[:200], (' when ' + ' & '.join(cs)[:160]) if cs else ''), site=site)
+    return n_ok
+
+
 def m1_formula(ctx):
     """M1 convert_money and MoneyItem::convert_currency both compute amount / rate(from) * rate(to)"""
     ctx.rule('M1', 'currency conversion formula (two siblings)', floor=2)
     # sibling 1: the rule function
     b = rule_body(ctx, 'convert_money')
     ctx.fn(b)
-
-    def leaf1(e):
-        t = render(e)
-        if re.fullmatch(r'Money::get_price\(tools::get_money\(config, "[^"]+", fields\) as Some\.0\)', t):
-            return 'amount'
-        m = re.fullmatch(r'BTreeMap::get\(config\.currency_rate, (.*)\) as Some\.0', t)
-        if m:
-            k = m.group(1)
-            if 'get_money(' in k and 'get_currency(tools' in k.replace('Money::get_currency(tools', 'get_currency(tools'):
-                return 'rate_from'
-            if re.fullmatch(r'tools::get_currency\(config, "[^"]+", fields\) as Some\.0', k):
-                return 'rate_to'
-        return None
+    SRC = r'tools::get_money\(config, "[^"]+", fields\) as Some\.0'
+    TGT = r'tools::get_currency\(config, "[^"]+", fields\) as Some\.0'
     n = 0
     for v, inner, conds in result_alternatives(b):
         if v != 'Ok':
@@ -44,60 +82,24 @@ def m1_formula(ctx):
         if inner[0] != 'aggr' or inner[1] != 'types::TokenType::Money':
             ctx.finding('M1', 'convert_money/result-kind', 'convert_money returns %s, not money' % render(inner)[:60], site=b.loc)
             continue
-        try:
-            got = to_rat(inner[2][0], leaf1, strip)
-        except NotArithmetic as e:
-            ctx.finding('M1', 'convert_money/not-arithmetic', 'convert_money value not extractable: %s in %s' % (e, render(inner[2][0])[:160]), site=b.loc)
-            continue
+        ok = check_conversion(ctx, b, inner[2][0], make_leaf(SRC, TGT), 'convert_money', 'convert_money', False, b.loc)
         cur = render(inner[2][1])
-        if not got.equals(WANT):
-            ctx.finding('M1', 'convert_money/formula', 'convert_money computes %s; the statement says amount * rate(B)/rate(A)' % render(inner[2][0])[:200], site=b.loc)
-        elif not re.fullmatch(r'tools::get_currency\(config, "[^"]+", fields\) as Some\.0', cur):
+        if not re.fullmatch(TGT, cur):
             ctx.finding('M1', 'convert_money/result-currency', 'converted amount is labelled with %s instead of the target currency' % cur[:80], site=b.loc)
-        else:
-            ctx.ok('M1', 'convert_money == amount / rate(from) * rate(to), labelled with the target currency', 'ratfun', site=b.loc)
-    if n != 1:
-        raise AnchorLost('convert_money: expected one Ok result, found %d' % n)
+        elif ok:
+            ctx.ok('M1', 'convert_money result is labelled with the target currency', 'wiring', site=b.loc)
+    if n < 1:
+        raise AnchorLost('convert_money: no Ok result found')
     # sibling 2: MoneyItem::convert_currency(self, config, left): converts `left` into self's currency
     c = ctx.facts.one(r'^compiler::money::MoneyItem::convert_currency$')
     ctx.fn(c)
-
-    def leaf2(e):
-        t = render(e)
-        if t == 'MoneyItem::get_price(left)' or t == 'left.0':
-            return 'amount'
-        if re.fullmatch(r'BTreeMap::get\(config\.currency_rate, (MoneyItem::get_currency\(left\)|left\.1)\) as Some\.0', t):
-            return 'rate_from'
-        if re.fullmatch(r'BTreeMap::get\(config\.currency_rate, (MoneyItem::get_currency\(self\)|self\.1)\) as Some\.0', t):
-            return 'rate_to'
-        return None
-    vals = []
-    for a, conds in alternatives(c, c.local_expr(0)):
-        for a2, c2 in expand_inner(c, a, conds):
-            vals.append((a2, c2))
-    nonzero = 0
-    for a, conds in vals:
-        a = strip(a)
-        if a[0] == 'const' and a[2] == 0.0:
-            continue     # missing rate -> 0 (quantifier: currencies that have a rate)
-        if any(x[0] == 'const' and x[2] == 0.0 for x in walk(a)) and any('currency_rate' in cond_str(d, v) and (cond_str(d, v).endswith('!=[1]') or cond_str(d, v).endswith('=[0]')) for d, v in conds):
-            continue     # as_usd = 0.0 because the source currency has no rate: outside the quantifier as well
-        try:
-            got = to_rat(a, leaf2, strip)
-        except NotArithmetic as e:
-            ctx.finding('M1', 'convert_currency/not-arithmetic', 'MoneyItem::convert_currency value not extractable: %s' % e, site=c.loc)
-            continue
-        nonzero += 1
-        if got.equals(WANT):
-            ctx.ok('M1', 'MoneyItem::convert_currency == left.amount / rate(left) * rate(self)', 'ratfun', site=c.loc)
-        else:
-            ctx.finding('M1', 'convert_currency/formula', 'MoneyItem::convert_currency computes %s; expected left / rate(left) * rate(self)' % render(a)[:200], site=c.loc)
-    if nonzero < 1:
+    ok = check_conversion(ctx, c, c.local_expr(0), make_leaf(r'left', r'self\.1'), 'convert_currency', 'MoneyItem::convert_currency', True, c.loc)
+    if ok < 1:
         raise AnchorLost('MoneyItem::convert_currency: no arithmetic alternative found')
 
 
 def expand_inner(b, e, conds):
-    """expand phi nodes nested in the arguments of arithmetic calls (as_usd is a phi of 0.0 and the quotient)"""
+    """expand phi nodes nested in the arguments of arithmetic nodes (as_usd is a phi of 0.0 and the quotient)"""
     e = strip(e)
     if e[0] == 'call' and len(e[2]) == 2 and re.search(r'::(mul|add|sub|div)$|do_divition$', e[1]):
         out = []
@@ -116,8 +118,9 @@ def expand_inner(b, e, conds):
         return alts
     out = []
     for a, c in alts:
-        if strip(a)[0] in ('call', 'binop') and a is not e:
-            out += expand_inner(b, a, c)
+        sa = strip(a)
+        if sa[0] in ('call', 'binop', 'phi') and sa is not e and (sa[0] != 'call' or re.search(r'::(mul|add|sub|div)$|do_divition$', sa[1])):
+            out += expand_inner(b, sa, c)
         else:
             out.append((a, c))
     return out
